@@ -111,7 +111,12 @@ def classify_value_expr(e, opnames):
     if isinstance(inner, ast.BinOp):
         return ("binop", type(inner.op).__name__, opidx(inner.left), opidx(inner.right), norm)
     if isinstance(inner, ast.Compare) and len(inner.ops) == 1:
-        return ("compare", type(inner.ops[0]).__name__, opidx(inner.left), opidx(inner.comparators[0]), norm or isinstance(e, ast.Compare))
+        opn_, li_, ri_ = type(inner.ops[0]).__name__, opidx(inner.left), opidx(inner.comparators[0])
+        # `b > a` is `a < b`: present a comparison of (operand 1, operand 0) as the mirrored comparison of (operand 0, operand 1)
+        mirror = {"Lt": "Gt", "Gt": "Lt", "LtE": "GtE", "GtE": "LtE", "Eq": "Eq", "NotEq": "NotEq"}
+        if (li_, ri_) == (1, 0) and opn_ in mirror:
+            opn_, li_, ri_ = mirror[opn_], 0, 1
+        return ("compare", opn_, li_, ri_, norm or isinstance(e, ast.Compare))
     if isinstance(inner, ast.BoolOp) and len(inner.values) == 2:
         return ("boolop", type(inner.op).__name__, opidx(inner.values[0]), opidx(inner.values[1]), norm)
     return None
